@@ -296,7 +296,11 @@ parsec_create_reshape_promise(parsec_execution_stream_t *es,
             data->data_future = (parsec_datacopy_future_t*)predecessor_repo_entry->data[predecessor_dep_flow_index];
             /* New fulfilled promises are set up on the successor repo in case
              * they track a data different to the one tracked by the predecessor repo. */
-            if(data->data != parsec_future_get_or_trigger(data->data_future, NULL, NULL, NULL, NULL)) {
+            /* Do not trigger the promise found in the predecessor entry: it may be an unfulfilled one (e.g. a PACKED
+             * reception waiting to be unpacked), there is no execution stream to run the reshape with here, and a
+             * reshaped copy is never the data of a fulfilled promise anyway. */
+            if( !(data->data_future->super.status & PARSEC_DATA_FUTURE_STATUS_COMPLETED)
+                || (data->data != (parsec_data_copy_t*)data->data_future->super.tracked_data) ) {
                 /* This case happens when a predecessor sends multiple copies with
                  * different shapes (type_remote) on the same output flow to a set
                  * of successors on the same remote destination node.
